@@ -523,7 +523,7 @@ impl Ctx {
         let mut g = self.slots[o.h as usize].lk();
         let h = g.as_mut().unwrap_or_else(|| bad(format!("start_send on empty slot {}", o.h)));
         let kind = h.kind();
-        let tid = rt::current_task_id();
+        let tid = rt::task_id_for(true, o.h);
         let start = rt::op_begin();
         let r = guarded(|| match h {
             H::BFS(s) => s.start_send_notify(v, &nref(), tid),
@@ -558,7 +558,7 @@ impl Ctx {
         let mut g = self.slots[o.h as usize].lk();
         let h = g.as_mut().unwrap_or_else(|| bad(format!("poll_complete on empty slot {}", o.h)));
         let kind = h.kind();
-        let tid = rt::current_task_id();
+        let tid = rt::task_id_for(true, o.h);
         let start = rt::op_begin();
         let r = guarded(|| match h {
             H::BFS(s) => s.poll_flush_notify(&nref(), tid).map_err(|_| ()),
@@ -579,7 +579,7 @@ impl Ctx {
         let mut g = self.slots[o.h as usize].lk();
         let h = g.as_mut().unwrap_or_else(|| bad(format!("receive on empty slot {}", o.h)));
         let kind = h.kind();
-        let tid = rt::current_task_id();
+        let tid = rt::task_id_for(false, o.h);
         let start = rt::op_begin();
         fn tr(r: Result<P, TryRecvError>) -> Res {
             match r {
